@@ -64,7 +64,17 @@ class Gen:
         if k == 'tuple':
             return ['Tuple', [self.literal(depth - 1) for _ in range(r.randint(0, 3))]]
         if k == 'dict':
-            return ['Dict', False, [[['Str', 'k%d' % i], self.literal(depth - 1)] for i in range(r.randint(0, 2))]]
+            def key(i):
+                # keys are evaluated like everything else in argument position: a tuple / frozenset key with a T leaf is rebuilt
+                c = r.random()
+                if c < 0.7:
+                    return ['Str', 'k%d' % i]
+                if c < 0.85:
+                    return ['Tuple', [['T', 'T', [['[', ['Str', 'b']]]], ['Str', 'k%d' % i]]]
+                if c < 0.93:
+                    return ['Set', True, [['T', 'T', [['[', ['Str', 'b']]]]]] if i == 0 else ['Set', True, [['Lit', i]]]     # one element: no set order to compare
+                return ['T', 'T', [['[', ['Str', 'b']]]] if i == 0 else ['Lit', i]
+            return ['Dict', False, [[key(i), self.literal(depth - 1)] for i in range(r.randint(0, 2))]]
         return ['Set', r.random() < 0.5, [r.choice([['Lit', 1], ['Str', 'a'], ['T', 'T', [['[', ['Str', 'b']]]]])]]
 
     def arg_case(self):
@@ -96,12 +106,45 @@ def generate(rng, tier):
     g = Gen(rng)
     n = 1200 if tier == 'quick' else 9000
     out = [{'kind': 'cyclic', 'shape': sh, 'site': site} for sh in CYCLE_SHAPES for site in SITES]
+    out += [{'kind': 'argleak', 'i': i} for i in range(len(argleak_cases()))]
     for i in range(n):
         if i % 4 == 3:
             out.append({'target': target(), 'spec': g.arg_case()})
         else:
             out.append({'target': target(), 'spec': g.ctx(rng.choice([2, 3, 3]))})
     return out
+
+
+# ---------- F30: an argument whose evaluation FAILS under a wildcard step (which swallows the failure and goes on in the same
+# scope) does not leave the chain in argument mode: the steps after it are evaluated, not taken as literals ----------
+def argleak_cases():
+    import glom
+    T_ = glom.T
+    t = {'a': {'k': 'x', 'x': 1}, 'b': {}, 'c': {'k': 'x', 'x': 2}}
+    return [
+        (t, (T_.__star__()[T_['k']], len), 2),
+        (t, (T_.__star__()[T_['k']], 'a'), ('raise', 'PathAccessError')),
+        (t, (T_.__star__()[T_['k']], [lambda x: x + 1]), [2, 3]),
+        (t, (T_.__starstar__()[T_['k']], len), 2),
+        (t, {'n': (T_.__star__()[T_['k']], len), 'm': 'b'}, {'n': 2, 'm': {}}),
+        (t, (T_.__star__()[T_['k']], glom.Fill([T_])), None),     # checked for shape below
+        ({'a': {'f': abs, 'v': -3}, 'b': {'v': 1}}, (T_.__star__()['f'](T_['v']), sum), 3),
+    ]
+
+
+def run_argleak(case):
+    import glom
+    t, spec, want = argleak_cases()[case['i']]
+    try:
+        got = glom.glom(t, spec)
+    except glom.GlomError as e:
+        got = ('raise', type(e).__name__)
+    if want is None:
+        want = [[1, 2]]
+    if got != want:
+        return {'problems': ['after a wildcard step that dropped a child whose argument failed: glom(%r, %s) gives %s, the steps evaluated '
+                             'in their own mode give %r' % (t, _safe_repr(spec), _safe_repr(got), want)]}
+    return {}
 
 
 # ---------- cyclic argument literals (decided on the implementation side: the tree-shaped IR cannot express them) ----------
@@ -224,17 +267,19 @@ def _safe_repr(x):
 def run_impl(case):
     if case.get('kind') == 'cyclic':
         return run_cyclic(case)
+    if case.get('kind') == 'argleak':
+        return run_argleak(case)
     return pyspec.run_glom(case)
 
 
 def coq_case(case, out):
-    if case.get('kind') == 'cyclic':
+    if case.get('kind') in ('cyclic', 'argleak'):
         return '(mkI VNone (SRequired SM) [] (Unmodelled "harness") [])'
     return c03.coq_case(case, out)
 
 
 def model_dump_term(case):
-    return '0' if case.get('kind') == 'cyclic' else c03.model_dump_term(case)
+    return '0' if case.get('kind') in ('cyclic', 'argleak') else c03.model_dump_term(case)
 
 
 python_snippet = c03.python_snippet
@@ -259,12 +304,14 @@ def _depth(ir):
 
 
 def nontrivial(case, out):
-    if case.get('kind') == 'cyclic':
+    if case.get('kind') in ('cyclic', 'argleak'):
         return True
     return _has_wrapper_with_sibling(case['spec']) or _depth(case['spec']) >= 3
 
 
 def classify(case, out):
+    if case.get('kind') == 'argleak':
+        return 'argleak:%d' % case['i']
     if case.get('kind') == 'cyclic':
         return 'cyclic:%s:%s' % (case['shape'], case['site'])
     tag = 'raise:%s' % out['raise'] if 'raise' in out else 'ok'
